@@ -49,6 +49,9 @@ def generate(seed, index, tier):
     cfg['m2m'] = cfg['relations'] and rng.random() < 0.6
     if rng.random() < 0.25:
         cfg['meta'] = [m for m in cfg['meta'] if rng.random() < 0.5]
+    if rng.random() < 0.2:
+        # the subset a version-1 signature can express
+        cfg['meta'] = ['unique_together', 'index_together']
     g = gen.Gen(rng, cfg)
     apps = ['vb', 'va'] if rng.random() < 0.3 else ['va']
     st = g.gen_state(apps)
@@ -73,7 +76,11 @@ def generate(seed, index, tier):
                         for a in apps},
                'order': apps, 'databases': ['default']}
     h1, h2 = rng.sample([0, 1, 2], 2)
+    v1_ok = all(not (m.get('meta') or {}).get('indexes')
+                and not (m.get('meta') or {}).get('constraints')
+                for a in apps for m in st['apps'][a]['models'])
     return {'project': project, 'h1': h1, 'h2': h2,
+            'legacy': bool(v1_ok and rng.random() < 0.6),
             'clock_gap_us': rng.choice([0, 1, 10 ** 6, 86400 * 10 ** 6])}
 
 
@@ -107,14 +114,29 @@ def execute(scn):
             res['runs'] = ws.nruns
             return res
         s1 = snapshot.snapshot(ws)
+        if scn.get('legacy'):
+            # the same content as a version-1 pickle (a database last
+            # touched by Django Evolution 1.x)
+            lg = ws.run('legacy_sig', {}, hashseed=scn['h1'])
+            if lg.status != 'ok':
+                raise runner.HarnessError('legacy_sig failed: %s' % (
+                    (lg.exit or {}).get('msg'),))
+            stats['legacy_v1'] = 1
         ws.advance_clock(scn.get('clock_gap_us', 0))
         r = ws.run('evolve', {'execute': True}, hashseed=scn['h2'],
                    probes=['sig'])
         p = r.probe('sig') or {}
-        detail = dict(features=sorted(feats))
+        detail = dict(features=sorted(feats), legacy=bool(scn.get('legacy')))
         if p.get('error'):
             viols.append(violation('C06.load_failed', error=p['error'][:300],
                                    **detail))
+        elif scn.get('legacy'):
+            # version-1 signatures cannot express upgrade methods / applied
+            # migrations (contenttypes): judge the generated apps only
+            for a in P['order']:
+                if not (p.get('apps_eq') or {}).get(a):
+                    viols.append(violation('C06.v1_content', app=a,
+                                           **detail))
         else:
             if not p.get('eq'):
                 viols.append(violation('C06.not_equal', **detail))
@@ -123,15 +145,16 @@ def execute(scn):
                     'C06.diff_nonempty', diff=p.get('diff_st', '')[:300],
                     st=p.get('diff_st_empty'), ts=p.get('diff_ts_empty'),
                     **detail))
-            if not p.get('reserialise_equal'):
+            if not p.get('reserialise_equal') and not scn.get('legacy'):
                 viols.append(violation('C06.reserialise_differs', **detail))
             if not p.get('clone_eq') or not p.get('clone_diff_empty') or \
                     not p.get('self_diff_empty'):
                 viols.append(violation('C06.clone_or_self', **{
                     k: p.get(k) for k in ('clone_eq', 'clone_diff_empty',
                                           'self_diff_empty')}, **detail))
-        if r.status != 'ok' or 'No database upgrade required' not in \
-                r.stdout():
+        if not scn.get('legacy') and (
+                r.status != 'ok' or 'No database upgrade required' not in
+                r.stdout()):
             viols.append(violation(
                 'C06.rerun_required', status=r.status,
                 out=(r.stdout() + r.stderr())[-300:], **detail))
